@@ -79,7 +79,7 @@ PLANS["C11"] = pure_plan("bumping", 150000, 12000000,
                           "up:near_top:align>16:fits", "up:dummy:align<=min:does_not_fit", "down:dummy:align>16:does_not_fit", "up:near_zero:align<=16:fits"])
 _c12a = arena("C12", 60, 1500)
 PLANS["C12"] = pure_plan("chunksize", 150000, 8000000,
-                         ["fit_checked", "growth_checked", "hint_overflow_reported", "up_sized", "down_sized", "slow_new", "with_capacity_fit", "reserve_new_chunk", "first_chunk_from_unallocated"],
+                         ["fit_checked", "growth_checked", "hint_overflow_reported", "up_sized", "down_sized", "slow_new", "with_capacity_fit", "reserve_new_chunk", "first_chunk_from_unallocated", "chunk_growth_walked"],
                          extra_quick=_c12a["quick"], extra_thorough=_c12a["thorough"][:4])
 
 def coll(prop, hq, ht, need, level="exploration", extra=(), extra_quick=(), extra_thorough=(), miri_h=3, miri_extra=()):
@@ -104,10 +104,10 @@ _c07a = arena("C07", 25, 600, level="fault_enumeration")
 PLANS["C07"] = coll("C07", 150, 4000, ["alloc_refused", "fixed_full_rejected", "base_refused", "mut_grew_other_chunk", "commit_mut", "panicking_method_panicked_on_refusal", "typed_err_refused"],
                     level="fault_enumeration", miri_h=1, extra_quick=_c07a["quick"], extra_thorough=_c07a["thorough"][:5])
 PLANS["C08"] = coll("C08", 400, 10000, ["grew", "grew_realloc", "panic_matched_model", "zst_capacity", "fixed_full_rejected", "conversion", "drain_partial", "retain", "dedup",
-                                         "append_src:owned_slice::IntoIter", "append_src:owned_slice::Drain", "append_src:MutBumpVecRev", "append_src:&mut BumpVec", "ctor:3", "ctor:4", "ctor:5", "ctor:6"])
+                                         "append_src:owned_slice::IntoIter", "append_src:owned_slice::Drain", "append_src:MutBumpVecRev", "append_src:&mut BumpVec", "ctor:3", "ctor:4", "ctor:5", "ctor:6", "dedup_by_non_equivalence"])
 PLANS["C09"] = coll("C09", 400, 10000, ["nonboundary_index", "invalid_utf8_input", "lossy_replaced", "str_panic_matched", "cstr", "split", "panic_injected"])
 _c15a = arena("C15", 40, 1000)
-PLANS["C15"] = coll("C15", 300, 8000, ["commit_mut", "commit_mut_rev", "mut_dropped_unfinalised", "mut_grew_other_chunk", "prepared_commit", "mut_helper", "prepared_commit_after_chunk_switch"],
+PLANS["C15"] = coll("C15", 300, 8000, ["commit_mut", "commit_mut_rev", "mut_dropped_unfinalised", "mut_grew_other_chunk", "prepared_commit", "mut_helper", "prepared_commit_after_chunk_switch", "mut_collection_via_dyn", "collection_on_unallocated_arena"],
                     extra_quick=_c15a["quick"], extra_thorough=_c15a["thorough"][:4])
 PLANS["C16"] = coll("C16", 400, 10000, ["split", "merge_ok", "merge_rejected", "split_interior", "split_prefix", "split_suffix", "split_empty", "split_full", "into_flattened", "split_at_spare"])
 
